@@ -93,6 +93,30 @@ def run(ctx):
     if sorted(STEPS_BY_ID.keys()) != sorted(PUBLISHED):
         ctx.violation("registry", "the step registry does not hold exactly the eight published step types",
                       {"registry": sorted(STEPS_BY_ID.keys())})
+    # the registry refuses a second registration of a published name, and decoding refuses what is not a step:
+    # every such input must end in a ValueError-family exception (never an internal error, never a step)
+    from prosemirror.transform.step import Step, step_json_id
+    from prosemirror.transform import ReplaceStep
+    std, _ = outcome(lambda: step_json_id("replace", ReplaceStep))
+    if std != "valueError" or sorted(STEPS_BY_ID.keys()) != sorted(PUBLISHED):
+        ctx.violation("registry", "registering a published step name a second time is not refused with a ValueError",
+                      {"outcome": std, "registry": sorted(STEPS_BY_ID.keys())})
+    basic = schemas.family()[0].schema
+    for bad in (None, {}, "{}", {"stepType": ""}, {"stepType": "nosuchstep"}, {"from": 1, "to": 2}, '{"stepType": "nosuchstep"}'):
+        stb, vb = outcome(lambda: Step.from_json(basic, bad))
+        ctx.count("malformed-step:" + stb)
+        if stb != "valueError":
+            ctx.violation("malformed-accepted", f"Step.from_json did not refuse a non-step with a ValueError: {stb} {str(vb)[:100]}", {"json": bad})
+    for bad in (None, {}, {"type": "paragraph", "marks": "strong"}, {"type": "paragraph", "marks": {"type": "strong"}}, {"type": "nosuchnode"}):
+        stb, vb = outcome(lambda: Node.from_json(basic, bad))
+        ctx.count("malformed-node:" + stb)
+        if stb != "valueError":
+            ctx.violation("malformed-accepted", f"Node.from_json did not refuse malformed input with a ValueError: {stb} {str(vb)[:100]}", {"json": bad})
+    for bad in ({"openStart": "1", "content": []}, {"openEnd": [1], "content": []}):
+        stb, vb = outcome(lambda: Slice.from_json(basic, bad))
+        ctx.count("malformed-slice:" + stb)
+        if stb != "valueError":
+            ctx.violation("malformed-accepted", f"Slice.from_json did not refuse malformed input with a ValueError: {stb} {str(vb)[:100]}", {"json": bad})
     fam = schemas.family()
     for si in range(ctx.budget(14, 60)):
         if len(reqs) >= 15000:
@@ -125,6 +149,11 @@ def run(ctx):
                 if st2 != "ok":
                     ctx.violation("from_json-raises", f"from_json raised {back} on the library's own JSON", replay)
                     continue
+                if kind == "node":
+                    # Node.from_json also accepts the JSON *text*
+                    sts, back_s = outcome(lambda: Node.from_json(schema, json.dumps(j)))
+                    if sts != "ok" or not back_s.eq(obj):
+                        ctx.violation("round-trip", "Node.from_json(text) does not give the object Node.from_json(data) gives", replay)
                 if not eq(back, obj) or canon(back.to_json()) != canon(j):
                     ctx.violation("round-trip", f"{kind}: reading the JSON back does not give an equal object / identical JSON",
                                   dict(replay, again=back.to_json()))
